@@ -464,7 +464,12 @@ def _fmt(history):
 
 def search(rec, cfg, K, D, reduced, state_cap):
     cfg_desc = cfg.describe()
-    visited = {initial()}
+    import hashlib
+
+    def key(st):
+        return hashlib.blake2b(repr(st).encode(), digest_size=12).digest()
+
+    visited = {key(initial())}
     frontier = [([], initial())]
     depth = 0
     total_states = 1
@@ -486,8 +491,9 @@ def search(rec, cfg, K, D, reduced, state_cap):
             succ = res.pop("succ")
             rec.merge(res)
             for nstate, hist in succ:
-                if nstate not in visited:
-                    visited.add(nstate)
+                k = key(nstate)
+                if k not in visited:
+                    visited.add(k)
                     nxt.append((hist, nstate))
         total_states = len(visited)
         if rec.violations and depth > 3:
@@ -544,7 +550,7 @@ def run(tier):
         plan = [
             (Cfg("v2c"), 3, 2, F, 3000000),
             (Cfg("v2c"), 4, 2, R, 3000000),
-            (Cfg("v2c"), 4, 3, R, 3000000),
+            (Cfg("v2c"), 4, 3, R, 12000000),
             (Cfg("v1"), 3, 2, F, 3000000),
             (Cfg("v1"), 4, 2, R, 3000000),
             (Cfg("v3"), 3, 2, F, 3000000),
